@@ -32,14 +32,14 @@ def gen(rng, old):
         elif x < 0.24:
             ops.append(("recv", f"{n};{c};0;0;{rng.choice(pres)};{rng.choice(['', 'desc'])}"))
         elif x < 0.42:
-            ops.append(("recv", f"{n};{c};1;0;{rng.choice(setreq)};{rng.choice(['1', '20.5', '', 'on'])}"))
+            ops.append(("recv", f"{n};{c};1;{rng.choice([0, 0, 1])};{rng.choice(setreq)};{rng.choice(['1', '20.5', '', 'on'])}"))
         elif x < 0.5:
-            ops.append(("recv", f"{n};{c};2;0;{rng.choice(setreq)};"))
+            ops.append(("recv", f"{n};{c};2;{rng.choice([0, 0, 1])};{rng.choice(setreq)};"))
         elif x < 0.78:
             t = rng.choice(internal)
             p = rng.choice(["", "0", "55", "abc", "500", "101", "1.0"])
             nn = rng.choice([n, n, 0, 255]) if iname(old, t) in ("I_ID_REQUEST", "I_LOG_MESSAGE", "I_GATEWAY_READY", "I_CONFIG", "I_TIME") else n
-            ops.append(("recv", f"{nn};255;3;0;{t};{p}"))
+            ops.append(("recv", f"{nn};255;3;{rng.choice([0, 0, 0, 1])};{t};{p}"))
         elif x < 0.84:
             ops.append(("recv", f"{n};255;4;0;{rng.choice(stream)};00"))
         elif x < 0.94:
